@@ -7,6 +7,7 @@ from typing import TYPE_CHECKING, ClassVar
 from mypy_extensions import mypyc_attr
 
 from pyjelly import jelly
+from pyjelly.errors import JellyConformanceError
 from pyjelly.options import LookupPreset, StreamParameters, StreamTypes
 from pyjelly.serialize.encode import (
     Slot,
@@ -61,6 +62,7 @@ class Stream:
         self.flow = flow
         self.repeated_terms = [None] * len(Slot)
         self.enrolled = False
+        self.failed = False
         self.stream_types = StreamTypes(
             physical_type=self.physical_type,
             logical_type=self.flow.logical_type,
@@ -95,6 +97,22 @@ class Stream:
             flow = ManualFrameFlow(logical_type=self.options.logical_type)
         return flow
 
+    def ensure_usable(self) -> None:
+        """
+        Refuse to encode anything after a statement failed half-way.
+
+        A statement that raises while being encoded leaves the lookup tables and
+        the repeated terms updated for rows that were never written; whatever is
+        encoded afterwards would refer to them.
+
+        Raises:
+            JellyConformanceError: if an earlier statement failed.
+
+        """
+        if self.failed:
+            msg = "stream cannot be used after a statement failed to encode"
+            raise JellyConformanceError(msg)
+
     def enroll(self) -> None:
         """Initialize start of the stream."""
         if not self.enrolled:
@@ -120,11 +138,16 @@ class Stream:
             iri (str): namespace iri
 
         """
-        rows = encode_namespace_declaration(
-            name=name,
-            value=iri,
-            term_encoder=self.encoder,
-        )
+        self.ensure_usable()
+        try:
+            rows = encode_namespace_declaration(
+                name=name,
+                value=iri,
+                term_encoder=self.encoder,
+            )
+        except BaseException:
+            self.failed = True
+            raise
         self.flow.extend(rows)
 
     @classmethod
@@ -206,11 +229,16 @@ class TripleStream(Stream):
                 flow supports frames slicing and current flow is full
 
         """
-        new_rows = encode_triple(
-            terms,
-            term_encoder=self.encoder,
-            repeated_terms=self.repeated_terms,
-        )
+        self.ensure_usable()
+        try:
+            new_rows = encode_triple(
+                terms,
+                term_encoder=self.encoder,
+                repeated_terms=self.repeated_terms,
+            )
+        except BaseException:
+            self.failed = True
+            raise
         self.flow.extend(new_rows)
         return self.flow.frame_from_bounds()
 
@@ -231,11 +259,16 @@ class QuadStream(Stream):
                 flow supports frames slicing and current flow is full
 
         """
-        new_rows = encode_quad(
-            terms,
-            term_encoder=self.encoder,
-            repeated_terms=self.repeated_terms,
-        )
+        self.ensure_usable()
+        try:
+            new_rows = encode_quad(
+                terms,
+                term_encoder=self.encoder,
+                repeated_terms=self.repeated_terms,
+            )
+        except BaseException:
+            self.failed = True
+            raise
         self.flow.extend(new_rows)
         return self.flow.frame_from_bounds()
 
@@ -260,8 +293,13 @@ class GraphStream(TripleStream):
             Generator[jelly.RdfStreamFrame]: jelly frames.
 
         """
+        self.ensure_usable()
         graph_start = jelly.RdfGraphStart()
-        [*graph_rows] = self.encoder.encode_graph(graph_id, graph_start)
+        try:
+            [*graph_rows] = self.encoder.encode_graph(graph_id, graph_start)
+        except BaseException:
+            self.failed = True
+            raise
         start_row = jelly.RdfStreamRow(graph_start=graph_start)
         graph_rows.append(start_row)
         self.flow.extend(graph_rows)
